@@ -77,23 +77,21 @@ Proof.
     unfold load_start. rewrite Ht. destruct (task s); proj; repeat split; auto.
 Qed.
 
-Lemma browse_wf o : browse_op o -> wf_op o \/ exists i, o = OGoto i.
-Proof. intros _. destruct o; cbn; auto. right; eexists; reflexivity. Qed.
 
 (* any interleaving *)
 Theorem browse_steps c ops : forall s,
-  thr (th s) = false -> Inv s -> Forall wf_op ops -> Forall browse_op ops ->
+  thr (th s) = false -> Inv s -> Forall browse_op ops ->
   (length (wl s) <= length (wl (steps c s ops)))%nat /\
   sto (store (steps c s ops)) = sto (store s) /\
   forall r, (r < length (wl s))%nat -> ~ In r (touched c s ops) ->
             rnth (wl (steps c s ops)) r = rnth (wl s) r.
 Proof.
-  induction ops as [|o rest IH]; intros s Ht HI Hwf Hb; cbn [steps fold_left touched].
+  induction ops as [|o rest IH]; intros s Ht HI Hb; cbn [steps fold_left touched].
   - repeat split; auto.
-  - inversion Hwf; subst. inversion Hb; subst.
-    destruct (browse_step c s o Ht HI H3) as (L1 & S1 & K1).
+  - inversion Hb; subst.
+    destruct (browse_step c s o Ht HI H1) as (L1 & S1 & K1).
     assert (Ht' : thr (th (step_state c s o)) = false) by (rewrite step_thr; exact Ht).
-    destruct (IH (step_state c s o) Ht' (step_inv c s o H1 HI) H2 H4) as (L2 & S2 & K2).
+    destruct (IH (step_state c s o) Ht' (step_inv c s o HI) H2) as (L2 & S2 & K2).
     fold (steps c (step_state c s o) rest) in *.
     repeat split; [lia | congruence|].
     intros r Hr Hnot. rewrite in_app_iff in Hnot.
